@@ -191,6 +191,8 @@ func C12(c *Ctx) {
 	r.Rule("R12.5", "restore only what changed: in revertJournal every Put / Delete of an account record lies behind the entry's AccountChanged flag and every Put / Delete of code behind CodeChanged; an entry that records only storage changes must leave the stored account record (balance, nonce, code hash) untouched.")
 	r.Rule("R12.6", "one journal entry is undone as a whole: every path through revertJournal reaches the loop over PrevStates and the test of CodeChanged - an early return after the account record was handled would leave the storage keys and the code that the block wrote in the database.")
 	r.Rule("R12.4", "root chain continues: after reverting, every successful path stores prevJnlHash (re-read from the target height's journal) and maxJnlHeight; a value other than that journal's root is stored only behind height == 0 or is overwritten before every return; the rollback is refused exactly when minJnlHeight > height (any spelling of that comparison), so the target's journal record exists whenever it is read.")
+	r.Rule("R12.7", "the journal records the real previous balance (shared with C10 R10.4): "+balanceInPlaceText)
+	c.balanceInPlace("R12.7")
 	r.NotDecided = append(r.NotDecided, "value-level equality of restored state; re-execution equivalence")
 
 	rs := c.fn("R12.1", "internal/ledger.(*SimpleLedger).RollbackState")
